@@ -329,8 +329,21 @@ func runCheck(o *Options, e *Engine, prop string) *CheckRun {
 				// one query per return path
 				total := ans.TimeS
 				allUnsat := true
+				// the return paths are independent: a few at a time
+				pas := make([]SolverAnswer, len(ob.parts))
+				var pwg sync.WaitGroup
+				psem := make(chan struct{}, 4)
 				for pi := range ob.parts {
-					pa, _ := solve(dir, fmt.Sprintf("q%05d_p%d", i, pi), ob.QueryPart(pi), timeout, false)
+					pwg.Add(1)
+					go func(pi int) {
+						defer pwg.Done()
+						psem <- struct{}{}
+						defer func() { <-psem }()
+						pas[pi], _ = solve(dir, fmt.Sprintf("q%05d_p%d", i, pi), ob.QueryPart(pi), timeout, false)
+					}(pi)
+				}
+				pwg.Wait()
+				for _, pa := range pas {
 					total += pa.TimeS
 					if pa.Status != "unsat" {
 						allUnsat = false
@@ -537,7 +550,16 @@ func report(o *Options, e *Engine, run *CheckRun) int {
 	var failed []*Obligation
 	byBackend := map[string]int{}
 	var solverTime float64
+	kfAll := loadKnownFindings(o.Verif)
+	kfObls := []string{}
 	for _, ob := range run.Obls {
+		if ob.Status != "discharged" && kfAll.match(prop, ob) != nil {
+			// a recorded finding is not part of what this run claims to have proved: it is reported
+			// separately (KNOWN-FINDING line, coverage.known_finding_obligations) and not counted as an obligation
+			kfObls = append(kfObls, shortName(ob.Name))
+			failed = append(failed, ob)
+			continue
+		}
 		if ob.Bounded != "" {
 			nBounded++
 			if ob.Status == "discharged" {
@@ -694,7 +716,7 @@ func report(o *Options, e *Engine, run *CheckRun) int {
 	fmt.Printf("property=%s tier=%s functions=%d obligations=%d discharged=%d (simplifier %d) bounded=%d/%d lemmas=%d failed=%d undecided=%d known-findings=%d wall=%.1fs\n",
 		prop, o.Tier, len(run.Results), nObl, nDis, nTriv, nBoundedDis, nBounded, len(run.Lemmas), len(failed)+lemmaFail-len(printedKF), len(run.Undecided)+missing, len(seen), wall)
 	if prop != "" && o.FuncRe == "" && o.OblRe == "" && !o.Fast {
-		writeEvidence(o, e, run, nObl, nDis, nTriv, nBounded, nBoundedDis, byBackend, solverTime, violations, keys(seen), wall)
+		writeEvidence(o, e, run, nObl, nDis, nTriv, nBounded, nBoundedDis, byBackend, solverTime, violations, keys(seen), wall, kfObls)
 	}
 	return exit
 }
@@ -845,7 +867,7 @@ func writeJSON(path string, v interface{}) {
 	os.WriteFile(path, append(data, '\n'), 0o644)
 }
 
-func writeEvidence(o *Options, e *Engine, run *CheckRun, nObl, nDis, nTriv, nBounded, nBoundedDis int, byBackend map[string]int, solverTime float64, violations int, kf []string, wall float64) {
+func writeEvidence(o *Options, e *Engine, run *CheckRun, nObl, nDis, nTriv, nBounded, nBoundedDis int, byBackend map[string]int, solverTime float64, violations int, kf []string, wall float64, kfObls []string) {
 	var fns []string
 	for _, r := range run.Results {
 		if r.BC != nil {
@@ -913,6 +935,7 @@ func writeEvidence(o *Options, e *Engine, run *CheckRun, nObl, nDis, nTriv, nBou
 		"lemmas":                   len(run.Lemmas),
 		"samples":                  samples,
 		"known_findings_printed":   kf,
+		"known_finding_obligations": kfObls,
 		"undecided":                run.Undecided,
 		"per_obligation_timeout_s": o.TimeoutS,
 	}
